@@ -7,6 +7,7 @@ import (
 	"context"
 	"fmt"
 	"testing"
+	"time"
 
 	"github.com/SAP/go-dblib/tds"
 	"pgregory.net/rapid"
@@ -61,6 +62,10 @@ type msgCase struct {
 	// carry the other packages completely and in order.
 	HalfAfter int `json:"half_serialised_package_after,omitempty"`
 	HalfLen   int `json:"half_serialised_bytes,omitempty"`
+	// ByClose: (last message of a history) the packages are queued and the channel is closed
+	// without a flush: Close's logout package completes the message - everything queued goes
+	// out, followed by the logout, EOM on the last packet
+	ByClose bool `json:"flushed_by_closing_the_channel,omitempty"`
 }
 
 // halfN is a package whose serialisation fails after n bytes.
@@ -289,8 +294,9 @@ func runCase(c c01Case) (f *vh.Failure) {
 			vh.Label("aborted-message")
 			continue
 		}
+		byClose := m.ByClose && mi == len(c.Msgs)-1
 		for i, p := range pkgs {
-			if m.SendLast && i == len(pkgs)-1 {
+			if m.SendLast && i == len(pkgs)-1 && !byClose {
 				err = ch.SendPackage(ctx, p)
 			} else {
 				err = ch.QueuePackage(ctx, p)
@@ -341,7 +347,32 @@ func runCase(c c01Case) (f *vh.Failure) {
 				vh.Label("buffer-reused-after-queueing")
 			}
 		}
-		if !m.SendLast {
+		if byClose {
+			closed := make(chan error, 1)
+			go func() {
+				defer func() {
+					if r := recover(); r != nil {
+						closed <- fmt.Errorf("panic: %v", r)
+					}
+				}()
+				closed <- ch.Close()
+			}()
+			// the server answers the logout once it has seen the end of the message
+			if _, _, err := pipe.WaitMessage(off, 5*time.Second); err != nil {
+				return vh.Failf("C01/no-eom-on-last-packet", "message %d, flushed by closing the channel: no packet with EOM reached the transport within 5 s: %v", mi, err)
+			}
+			ch.WritePacket(&tds.Packet{Header: tds.PacketHeader{MsgType: tds.TDS_BUF_RESPONSE, Status: tds.TDS_BUFSTAT_EOM, Length: 17}, Data: []byte{0xfd, 0, 0, 0, 0, 0, 0, 0, 0}})
+			select {
+			case <-closed:
+			case <-time.After(10 * time.Second):
+				return vh.Failf("C01/send-error", "message %d: Close did not return within 10 s of the server's answer to the logout", mi)
+			}
+			want = append(want, 0x71, 0x00)
+			if wantAlt != nil {
+				wantAlt = append(wantAlt, 0x71, 0x00)
+			}
+			vh.Label("message-flushed-by-closing-the-channel")
+		} else if !m.SendLast {
 			if err := ch.SendRemainingPackets(ctx); err != nil {
 				return vh.Failf("C01/send-error", "message %d: SendRemainingPackets: %v", mi, err)
 			}
@@ -399,7 +430,7 @@ func runCase(c c01Case) (f *vh.Failure) {
 			}
 			return vh.Failf("C01/body-mismatch", "%s: packet bodies (%d bytes) differ from the packages' encodings (%d bytes) at offset %d", desc, len(body), len(want), i)
 		}
-		if ch.CurrentHeaderType != tds.TDS_BUF_NORMAL {
+		if ch.CurrentHeaderType != tds.TDS_BUF_NORMAL && !byClose {
 			return vh.Failf("C01/header-type-not-reset", "%s: CurrentHeaderType is %d after the message", desc, ch.CurrentHeaderType)
 		}
 		multiple := len(want)%(cur-8) == 0
@@ -516,6 +547,9 @@ func TestMessages(t *testing.T) {
 			c.Msgs = append(c.Msgs, genMsg(rt))
 		}
 		c.Log = rapid.IntRange(0, 3).Draw(rt, "log") == 0
+		if last := &c.Msgs[n-1]; !last.Abort && rapid.IntRange(0, 5).Draw(rt, "byclose") == 0 {
+			last.ByClose = true
+		}
 		if n == 1 && len(c.Msgs[0].Pkgs) <= 2 {
 			vh.Sample("history", c)
 		}
